@@ -18,16 +18,16 @@
 (***************************************************************************)
 EXTENDS IppModel, IppBytes, TLC, Json, IOUtils
 Rec == ndJsonDeserialize(IOEnv.TRACE)
-VARIABLES l, posts, script, returned, ids
-vars == <<l, posts, script, returned, ids>>
-Init == l = 1 /\ posts = <<>> /\ script = <<>> /\ returned = {} /\ ids = {}
+VARIABLES l, posts, script, returned, ids, oks
+vars == <<l, posts, script, returned, ids, oks>>
+Init == l = 1 /\ posts = <<>> /\ script = <<>> /\ returned = {} /\ ids = {} /\ oks = {}
 
 Good(s) == s.status = 200 /\ ~s.cut /\ ~s.stall
 Lookup(f, k, d) == IF k \in DOMAIN f THEN f[k] ELSE d
 HasHeader(h, name, value) == name \in DOMAIN h /\ \E i \in 1..Len(h[name]) : h[name][i] = value
 
 Exch(e) == /\ ids' = {e.ids[i] : i \in 1..Len(e.ids)} /\ posts' = [i \in {e.ids[j] : j \in 1..Len(e.ids)} |-> 0]
-           /\ script' = <<>> /\ returned' = {}
+           /\ script' = <<>> /\ returned' = {} /\ oks' = {}
 Srv(e) ==
   /\ e.rid \in ids
   /\ e.method = "POST"
@@ -42,11 +42,13 @@ Srv(e) ==
   /\ e.pay_ok
   /\ posts' = [posts EXCEPT ![e.rid] = @ + 1]
   /\ script' = [x \in (DOMAIN script) \cup {e.rid} |-> IF x = e.rid THEN e.script ELSE script[x]]
-  /\ UNCHANGED <<returned, ids>>
+  /\ UNCHANGED <<returned, ids, oks>>
 Ret(e) ==
   /\ e.rid \in ids /\ e.rid \notin returned
-  /\ e.rid \in DOMAIN script                                \* the request did reach the server
-  /\ LET s == script[e.rid] IN
+  /\ IF e.rid \notin DOMAIN script
+     THEN ~e.res.ok /\ e.res.err \notin {"PANIC", "HANG"}    \* gave up before any request reached the server: an error
+     ELSE
+     LET s == script[e.rid] IN
      /\ e.res.ok = Good(s)
      /\ (e.res.ok => /\ e.res.msg.hdr = s.resp.hdr
                      /\ NormMsg(e.res.msg.groups) = NormMsg(s.resp.groups)
@@ -54,9 +56,11 @@ Ret(e) ==
      /\ (~e.res.ok => e.res.err \notin {"PANIC", "HANG"})
      /\ (s.stall => e.ms < s.stall_ms)                      \* the timeout fired, not the server's patience
   /\ returned' = returned \cup {e.rid}
+  /\ oks' = IF e.res.ok THEN oks \cup {e.rid} ELSE oks
   /\ UNCHANGED <<posts, script, ids>>
-EndX(e) == /\ returned = ids /\ \A i \in ids : posts[i] = 1
-           /\ UNCHANGED <<posts, script, returned, ids>>
+(* one POST per send; none only for a send that failed before reaching the server *)
+EndX(e) == /\ returned = ids /\ \A i \in ids : posts[i] <= 1 /\ (i \in oks => posts[i] = 1)
+           /\ UNCHANGED <<posts, script, returned, ids, oks>>
 Step(e) == CASE e.ev = "exch" -> Exch(e) [] e.ev = "srv" -> Srv(e) [] e.ev = "ret" -> Ret(e)
              [] e.ev = "endx" -> EndX(e) [] OTHER -> FALSE
 Next == l <= Len(Rec) /\ Step(Rec[l]) /\ l' = l + 1
